@@ -49,7 +49,8 @@ def string_slot_domain():
     """A second, small domain around the string-slot pattern (a dynamic array / `bytes` meeting the packed encoding
     {flag bit (0,1), short length (1,7), data (8,248)}), with the spans of the packed encodings listed in ascending, in
     descending and in mixed order: the order in which spans happen to be listed is not evidence."""
-    d = ["bytes", ["dyn", 0], ["word", 256, "bytes"], ["word", 8, "unsigned"]]
+    d = ["bytes", ["dyn", 0], ["word", 256, "bytes"], ["word", 8, "unsigned"], ["word", None, "signed"], ["word", 256, "signed"],
+         ["word", None, "numeric"]]
     spans = {"f": [1, 0, 1], "l": [2, 1, 7], "d": [3, 8, 248]}
     for names in ("f", "l", "d", "fl", "lf", "fd", "df", "ld", "dl", "fld", "dlf", "lfd", "dfl"):
         d.append(["packed", False] + [spans[c] for c in names])
@@ -323,7 +324,7 @@ def finish_c16(tier, seed, res, dom, t0):
         PROP, tier, seed, res, "exploration",
         "exhaustive over a %d-element evidence domain (Any, dynamic bytes, words of every usage x widths "
         "{unknown,8,32,160,192,256}, two mappings, two dynamic arrays, four fixed arrays, a conflict%s): all %d ordered "
-        "pairs (symmetry) and all %d ordered triples (associativity); the same two laws exhaustively over a second 17-element "
+        "pairs (symmetry) and all %d ordered triples (associativity); the same two laws exhaustively over a second 20-element "
         "domain around the string-slot pattern (bytes, a dynamic array, words, and packed encodings of the flag / length / data "
         "spans listed in ascending, descending and mixed order); the same law one level up: all unordered pairs and "
         "sampled triples (excluding the recorded non-associative ones) as judgements about one variable, unified by the real "
